@@ -8,7 +8,7 @@ let int_of_n = function N0 -> 0 | Npos p -> int_of_pos p
 let () =
   try while true do
     let line = input_line stdin in
-    match String.split_on_char '|' line with
+    try match String.split_on_char '|' line with
     | [h; a; b] ->
       let hs = List.filter (fun s -> s <> "") (String.split_on_char ' ' h) in
       let codes s = List.map (fun x -> match String.split_on_char ':' x with
@@ -20,4 +20,5 @@ let () =
       let m = match List.nth hs 0 with "n" -> ModeNo | "y" -> ModeYes | _ -> ModePreen in
       print_endline (string_of_int (int_of_n (exit_status m (codes a) (codes b) (List.nth hs 1 = "1") (List.nth hs 2 = "1"))))
     | _ -> print_endline "?"
+    with Stack_overflow -> print_endline "?"
   done with End_of_file -> ()
